@@ -305,10 +305,22 @@ def _nan_like(sim):
 _MODEL_CLASS = None
 
 
-def model_class():
-    global _MODEL_CLASS
+_CONTAINER_MODEL_CLASS = None
+
+
+def model_class(container=False):
+    """container=True: a model class that is also a (currently empty) container - len(model) == 0, so the model
+    object is falsy, like a model that counts its entities with __len__"""
+    global _MODEL_CLASS, _CONTAINER_MODEL_CLASS
     if _MODEL_CLASS is None:
         _MODEL_CLASS = make_model_class()
+    if container:
+        if _CONTAINER_MODEL_CLASS is None:
+            class ContainerProgModel(_MODEL_CLASS):
+                def __len__(self):
+                    return 0
+            _CONTAINER_MODEL_CLASS = ContainerProgModel
+        return _CONTAINER_MODEL_CLASS
     return _MODEL_CLASS
 
 
@@ -330,7 +342,8 @@ class Harness:
             self.sim = DEVSSimulatorInt(self.name)
         else:
             self.sim = DEVSSimulatorDuration(self.name, program.get("display_unit", "s"))
-        self.model = model if model is not None else model_class()(self.sim, program)
+        self.model = model if model is not None else \
+            model_class(bool(program.get("container_model")))(self.sim, program)
         self.rec = Recorder()
         self.replication = None
         self._threads_before = set(threading.enumerate())
